@@ -86,7 +86,7 @@ BOUND_LITS = {
     # second print differ on the UNCHANGED tree (reported, not a known finding yet) - switched off until it is filed
     "negative_zero": ["-0.0", "-0.", "-0e0"],
 }
-NEGATIVE_ZERO_BOUNDS = False
+NEGATIVE_ZERO_BOUNDS = True
 _FLOAT_ONLY = ("overflow", "nan")
 _MODEL_CLASSES = {"int": ("integral",), "ints": ("integral",), "float": ("integral", "eighths"), "floats": ("integral", "eighths")}
 
